@@ -889,6 +889,31 @@ func ruleC08(c *Ctx, r *Report) {
 			r.viol(rule, name, "units:hash-over-utf16", c.Pos(at.Pos()), "the hash runs over "+strings.Join(us, "/")+" of the key, Mycat's over Java chars (UTF-16 code units): keys with characters outside the Basic Multilingual Plane (for bytes: every multi-byte character) hash differently and are placed in another database than Mycat placed them")
 		}
 	}
+	// the key text itself is never cut by a character position: a Slice of a string with a non-constant bound counts bytes
+	{
+		name := c.FuncName(find)
+		bad := false
+		var at ssa.Instruction
+		allInstrs(find, func(in ssa.Instruction) {
+			sl, ok := in.(*ssa.Slice)
+			if !ok || !isStringType(sl.X.Type()) {
+				return
+			}
+			for _, b := range []ssa.Value{sl.Low, sl.High} {
+				if b == nil {
+					continue
+				}
+				if _, isConst := constInt(b); !isConst {
+					bad, at = true, in
+				}
+			}
+		})
+		if bad {
+			r.viol(rule, name, "units:no-byte-cut-of-key", c.Pos(at.Pos()), "the key string is cut at a position computed at run time: a string slice counts UTF-8 bytes, the hash-slice window counts Java chars, so a multi-byte key is cut in the wrong place (or inside a character) before it is hashed")
+		} else {
+			r.ok(rule, name, "units:no-byte-cut-of-key", c.Pos(find.Pos()), "the key text is not sliced by a run-time position before the UTF-16 conversion")
+		}
+	}
 	// bounds
 	{
 		name := c.FuncName(find)
